@@ -295,9 +295,26 @@ def usef_features(srcs, mod, fname):
             if stored - set(params):
                 feats.add("temps")
             loads = [x.id for x in ast.walk(n) if isinstance(x, ast.Name) and isinstance(x.ctx, ast.Load)]
-            if any(loads.count(p) > 1 for p in params):
+            # a parameter used more than once in the body AND, somewhere in the project, a simple statement that
+            # contains the same call expression twice (the expression with an effect that is evaluated once afterwards)
+            if any(loads.count(p) > 1 for p in params) and _repeated_call(srcs):
                 feats.add("dup-param")
     return sorted(feats)
+
+
+def _repeated_call(srcs):
+    for s in srcs.values():
+        try:
+            tree = ast.parse(s)
+        except SyntaxError:
+            continue
+        for st in ast.walk(tree):
+            if isinstance(st, ast.stmt) and not hasattr(st, "body"):
+                calls = [ast.dump(c) for c in ast.walk(st) if isinstance(c, ast.Call)
+                         and not (isinstance(c.func, ast.Name) and c.func.id == "print")]
+                if len(calls) != len(set(calls)):
+                    return True
+    return False
 
 
 def signature(obj):
@@ -311,9 +328,46 @@ def signature(obj):
         return "l2f:" + ("clash" if name in class_attributes(src) else "") + f
     if k == "usef":
         return "usef:" + "+".join(usef_features(obj["sources"], obj["mod"], obj["target"])) + f
-    if k in ("fac", "mobj"):
+    if k == "fac":
+        return "fac:" + "+".join(fac_features(obj["sources"], obj.get("global", False))) + f
+    if k == "mobj":
         return k + ":" + str(obj.get("shape", ""))
     return None
+
+
+def fac_features(srcs, global_, cls="C", name="create"):
+    """Structural shapes of two FIXED IntroduceFactory defects (f54ee77, e8eb856; regression streams, no open finding
+    carries these shapes any more, so any failure on them is a VIOLATION), both only for global factories: class-level
+    statements after the last method of the class; a client module that imports from the class's module with
+    `from ma import ...` and defines a top-level name spelled like the factory."""
+    feats = set()
+    if not global_:
+        return []
+    for n in ast.parse(srcs["ma"]).body:
+        if isinstance(n, ast.ClassDef) and n.name == cls:
+            defs = [i for i, b in enumerate(n.body) if isinstance(b, ast.FunctionDef)]
+            if defs and defs[-1] != len(n.body) - 1:
+                feats.add("class-tail")
+    for m, s in srcs.items():
+        if m == "ma":
+            continue
+        try:
+            body = ast.parse(s).body
+        except SyntaxError:
+            continue
+        from_style = any(isinstance(b, ast.ImportFrom) and b.module == "ma" for b in body)
+        defined = set()
+        for b in body:
+            if isinstance(b, (ast.FunctionDef, ast.ClassDef)):
+                defined.add(b.name)
+            elif isinstance(b, ast.Assign):
+                defined.update(t.id for t in b.targets if isinstance(t, ast.Name))
+        uses = any(isinstance(x, ast.Call) and ((isinstance(x.func, ast.Name) and x.func.id == cls) or
+                                                (isinstance(x.func, ast.Attribute) and x.func.attr == cls))
+                   for x in ast.walk(ast.parse(s)))
+        if from_style and uses and name in defined:
+            feats.add("client-name-clash")
+    return sorted(feats)
 
 
 # ----------------------------------------------------------------------------------------- text-level cases
@@ -783,13 +837,16 @@ def evaluate_nest(rng):
         if st != "ok":
             rec["msg"] = new
         recs.append(rec)
+    special = [f for f in funcs if f in ("vary", "spread", "gather")]
+    funcs = [f for f in funcs if f not in special]
     rng.shuffle(funcs)
-    for f in funcs[:4]:
+    for f in funcs[:3] + [rng.choice(special)]:
         add("mobj", f, do_method_object(srcs, "ma", f), {})
     for f in [rng.choice(["inner", "helper"]), rng.choice(["top", "solo", "plain"])]:
         add("usef", f, do_use_function(srcs, "ma", f), {})
     rng.shuffle(locs)
-    for anchor, is_method_local in locs[:4]:
+    meth = [x for x in locs if x[1]]
+    for anchor, is_method_local in meth[:2] + [x for x in locs if not x[1]][:2]:
         off = srcs["ma"].index(anchor)
         add("l2f", anchor.strip(), do_local_to_field(srcs, "ma", off),
             {"offset": off, "l2f_target": "method-local" if is_method_local else "not-a-method-local"})
@@ -836,6 +893,22 @@ def evaluate_compound(rng):
         rec = {"kind": kind, "prj": {"hazard": None, "textonly": "compound"}, "srcs": srcs, "before": None, "rt_ok": True,
                "rope_prj": None, "oracle": None, "status": st, "new": new if st == "ok" else None, "skip_model": True,
                "global": glob, "expect_refusal": bool(glob and class_indentation(srcs["ma"]) > 0)}
+        if st != "ok":
+            rec["msg"] = new
+        recs.append(rec)
+    return recs
+
+
+def evaluate_fac_shape(rng, which):
+    srcs = G.factory_shape_project(rng, which)
+    recs = []
+    for glob in (False, True):
+        st, new = do_factory(srcs, global_=glob)
+        rec = {"kind": "fact", "prj": {"hazard": None, "textonly": "factory-" + which}, "srcs": srcs, "before": None,
+               "rt_ok": True, "rope_prj": None, "oracle": None, "status": st, "new": new if st == "ok" else None,
+               "skip_model": True, "global": glob,
+               # current code: a global factory is refused exactly when a from-import client already has the name
+               "expect_refusal": "client-name-clash" in fac_features(srcs, glob)}
         if st != "ok":
             rec["msg"] = new
         recs.append(rec)
@@ -910,13 +983,14 @@ def check_records(ctx, recs):
         ctx.count("%s:stream:%s" % (kind, hz or "main"))
         if r["prj"].get("textonly"):
             ctx.count("%s:%s:%s" % (kind, r["prj"]["textonly"], r["status"]))
-        if kind == "fact" and (r["status"] == "refused") != r["expect_refusal"]:
+        if kind == "fact" and r["expect_refusal"] is not None and (r["status"] == "refused") != r["expect_refusal"]:
             ctx.violation(dict(replay_obj(r), observed="status %s%s" % (r["status"], (": " + r.get("msg", ""))[:120]),
                                broken="refusal rule of IntroduceFactory for global factories: refused iff the class "
-                                      "statement is indented"),
-                          "C17 fac: global factory %s although the class statement is %s" % (
+                                      "statement is indented or a from-import client already has the factory's name"),
+                          "C17 fac: global factory %s although %s" % (
                               "refused" if r["status"] == "refused" else "accepted",
-                              "indented" if r["expect_refusal"] else "at column 0"),
+                              ("the class statement is indented / a client already has the factory's name"
+                               if r["expect_refusal"] else "nothing asks for a refusal")),
                           no_input=(r["status"] == "refused"))
         if kind == "l2f" and r.get("l2f_target"):
             ctx.count("l2f:target:%s:%s" % (r["l2f_target"], r["status"]))
@@ -1043,6 +1117,8 @@ def run(ctx):
         recs.extend(evaluate_augrhs(ctx.rng))
     for i in range(ctx.scale(8, 60)):
         recs.extend(evaluate_compound(ctx.rng))
+    for i in range(ctx.scale(8, 60)):
+        recs.extend(evaluate_fac_shape(ctx.rng, "tail" if i % 2 == 0 else "clash"))
     # inheritance: the field's class has a base class that defines (or not) methods spelled like the accessors
     n_inh = ctx.scale(12, 120)
     i = 0
